@@ -98,3 +98,56 @@ Proof.
   destruct (write_prop_trace' _ _ _ _ _ W1) as [w1 T1]. destruct (write_prop_trace' _ _ _ _ _ W2) as [w2 T2].
   exists w1, w2. rewrite T2, T1. reflexivity.
 Qed.
+
+(* ---- handler parameters, in general ---- *)
+Open Scope nat_scope.
+(* the variables a handler function starts with: its declared parameters, bound to the LEADING signal arguments *)
+Definition handler_env (ps : list (string * option (list string))) (args : list val) : list (string * option val) :=
+  rev (combine (map fst ps) (map Some (firstn (length ps) args))).
+
+Lemma run_handler_env names this st f args :
+  run_handler names this st (CFunc f) args =
+  match f_body f with
+  | FStmt s => match exec names this st (handler_env (f_params f) args) s with Def (_, st1, _) => Def st1 | Undef => Undef | Stuck w => Stuck w end
+  | FExpr x => match eval names this st (handler_env (f_params f) args) x with Def (_, st1) => Def st1 | Undef => Undef | Stuck w => Stuck w end
+  end.
+Proof.
+  unfold run_handler, handler_env. destruct (f_body f); cbn [rbind].
+  - destruct (eval _ _ _ _ _) as [[v s1]| |]; reflexivity.
+  - destruct (exec _ _ _ _ _) as [[[o s1] e1]| |]; reflexivity.
+Qed.
+
+Lemma lookup_in_nodup (l : list (string * option val)) x v : NoDup (map fst l) -> In (x, v) l -> lookup l x = Some v.
+Proof.
+  induction l as [|[y w] r IH]; intros Hn Hin; [contradiction|]. cbn [lookup]. cbn [map fst] in Hn. inversion Hn as [|? ? Hy Hr]; subst.
+  destruct Hin as [Heq|Hin].
+  - inversion Heq; subst. rewrite String.eqb_refl. reflexivity.
+  - destruct (String.eqb x y) eqn:Exy.
+    + apply String.eqb_eq in Exy. subst y. exfalso. apply Hy. apply (in_map fst) in Hin. exact Hin.
+    + apply IH; assumption.
+Qed.
+
+(* the k-th declared parameter denotes the k-th argument of the emission, whatever further arguments the signal carries *)
+Theorem parameters_are_leading_arguments ps args k :
+  NoDup (map fst ps) -> length ps <= length args -> k < length ps ->
+  lookup (handler_env ps args) (fst (nth k ps (""%string, None))) = Some (Some (nth k args VVoid)).
+Proof.
+  intros Hn Hl Hk. unfold handler_env. apply lookup_in_nodup.
+  - rewrite map_rev. apply NoDup_rev.
+    assert (Hc : map fst (combine (map fst ps) (map Some (firstn (length ps) args))) = map fst ps).
+    { assert (Hlen : length (map fst ps) = length (map Some (firstn (length ps) args))) by (rewrite !map_length, firstn_length; lia).
+      revert Hlen. generalize (map Some (firstn (length ps) args)). generalize (map fst ps). clear.
+      induction l as [|a l IH]; intros [|b m] H; try discriminate; [reflexivity|]. cbn. f_equal. apply IH. cbn in H. lia. }
+    rewrite Hc. exact Hn.
+  - apply -> in_rev.
+    assert (Hx : nth k (combine (map fst ps) (map Some (firstn (length ps) args))) (""%string, Some VVoid)
+                 = (fst (nth k ps (""%string, None)), Some (nth k args VVoid))).
+    { rewrite combine_nth by (rewrite !map_length, firstn_length; lia).
+      f_equal.
+      - change (""%string) with (fst (""%string, @None (list string))) at 1. apply map_nth.
+      - change (Some VVoid) with (Some (A:=val) VVoid). rewrite (map_nth (@Some val)). f_equal.
+        clear Hn. revert k args Hl Hk. induction ps as [|p ps IH]; intros k args Hl Hk; [cbn in Hk; lia|].
+        destruct args as [|a args]; [cbn in Hl; lia|]. destruct k as [|k]; [reflexivity|]. cbn [length firstn nth]. apply IH; cbn in *; lia. }
+    rewrite <- Hx. apply nth_In. rewrite combine_length, !map_length, firstn_length. lia.
+Qed.
+Open Scope Z_scope.
